@@ -113,6 +113,9 @@ def main():
             results[key] = r
             print(key, json.dumps({k: v for k, v in r.items() if k not in ('tests_tail',)}, default=str), flush=True)
     out = os.path.join(VERIF, 'seeded', f'RESULTS_{a.tier}.json')
+    import fcntl
+    lock = open(out + '.lock', 'w')       # several invocations may run side by side
+    fcntl.flock(lock, fcntl.LOCK_EX)
     old = json.load(open(out)) if os.path.exists(out) else {}
     for k, r in results.items():
         prev = old.get(k, {})
